@@ -242,6 +242,27 @@ Proof.
   exists f, meth, ow. auto.
 Qed.
 
+Lemma kf_reparent_cfg_eq : forall r m,
+  kf_reparent_cfg T g r m = existsb (cfg_has T g SNoCopy) (reach T g r m).
+Proof. reflexivity. Qed.
+Lemma kf_emit_cfg_eq : forall r m, kf_emit_cfg T g r m = existsb (cfg_has T g SEmit) (reach T g r m).
+Proof. reflexivity. Qed.
+
+(* a member of a set free of the two known-finding markers, itself free of the other two, is clean *)
+Lemma clean_from_set : forall S c, In c S ->
+  existsb (cfg_has T g SNoCopy) S = false -> existsb (cfg_has T g SEmit) S = false ->
+  cfg_has T g SNoPrinter c = false -> cfg_has T g SBad c = false -> cfg_clean T g c = true.
+Proof.
+  intros S c Hin K1 K2 N1 N2. unfold cfg_clean. rewrite N1, N2.
+  assert (A1 : cfg_has T g SNoCopy c = false).
+  { destruct (cfg_has T g SNoCopy c) eqn:E; auto.
+    assert (X : existsb (cfg_has T g SNoCopy) S = true) by (apply existsb_exists; exists c; auto). congruence. }
+  assert (A2 : cfg_has T g SEmit c = false).
+  { destruct (cfg_has T g SEmit c) eqn:E; auto.
+    assert (X : existsb (cfg_has T g SEmit) S = true) by (apply existsb_exists; exists c; auto). congruence. }
+  rewrite A1, A2. reflexivity.
+Qed.
+
 (* the entry points of a mode on a concrete document are entries of the class-level analysis *)
 Lemma entry_in : forall of m c t, entry_ok T g of m c t ->
   In c (entries T g of m) /\ fits g c t = true.
@@ -300,11 +321,16 @@ Definition combo_ok (g : gram) (r : string) (m : omode) : bool :=
     forallb (fun c' => memcfg c' S) (cfgs_of st) &&
     negb (existsb (is_err SNoPrinter) st) && negb (existsb (is_err SBad) st)) S.
 
-Definition all_combos_ok : bool :=
-  forallb (fun i => forallb (fun r => forallb (fun m => combo_ok (grammar TB i) r m) out_modes) rep_roots) rep_its.
-
-Lemma all_combos_ok_true : all_combos_ok = true.
+Lemma all_combos_ok_true :
+  forallb (fun i => forallb (fun r => forallb (fun m => combo_ok (grammar TB i) r m) out_modes) rep_roots) rep_its = true.
 Proof. vm_compute. reflexivity. Qed.
+
+Lemma all_combos_forall : forall i r m, In i rep_its -> In r rep_roots -> In m out_modes ->
+  combo_ok (grammar TB i) r m = true.
+Proof.
+  intros i r m Hi Hr Hm.
+  exact (proj1 (forallb_forall _ _) (proj1 (forallb_forall _ _) (proj1 (forallb_forall _ _) all_combos_ok_true i Hi) r Hr) m Hm).
+Qed.
 
 Lemma rep_it_same : forall it, In it input_types -> grammar TB (rep_it it) = grammar TB it /\ In (rep_it it) rep_its.
 Proof.
@@ -325,10 +351,7 @@ Lemma combo_ok_all : forall it of m, In it input_types -> In of input_types ->
   combo_ok (grammar TB it) (root_class TB of) m = true.
 Proof.
   intros it of m Hi Ho. destruct (rep_it_same it Hi) as [Hg Hr]. rewrite <- Hg.
-  pose proof all_combos_ok_true as H. unfold all_combos_ok in H.
-  rewrite forallb_forall in H. specialize (H _ Hr).
-  rewrite forallb_forall in H. specialize (H _ (root_in of Ho)).
-  rewrite forallb_forall in H. apply H. apply mode_in.
+  apply all_combos_forall; [exact Hr | apply root_in; exact Ho | apply mode_in].
 Qed.
 
 Lemma combo_facts : forall g r m, combo_ok g r m = true ->
@@ -390,17 +413,9 @@ Theorem C13_partial : forall it of m,
 Proof.
   intros it of m Hi Ho K1 K2 t c x Hr. destruct (C13_cover _ _ _ _ _ _ Hi Ho Hr) as [Hin _].
   destruct (combo_facts _ _ _ (combo_ok_all it of m Hi Ho)) as [_ [_ F3]].
-  destruct (F3 c Hin) as [N1 N2]. apply clean_node_ok. unfold cfg_clean. rewrite N1, N2.
-  unfold kf_reparent_cfg in K1. unfold kf_emit_cfg in K2.
-  assert (A1 : cfg_has TB (grammar TB it) SNoCopy c = false).
-  { destruct (cfg_has TB (grammar TB it) SNoCopy c) eqn:E; auto.
-    assert (X : existsb (cfg_has TB (grammar TB it) SNoCopy) (reach TB (grammar TB it) (root_class TB of) m) = true)
-      by (apply existsb_exists; exists c; auto). congruence. }
-  assert (A2 : cfg_has TB (grammar TB it) SEmit c = false).
-  { destruct (cfg_has TB (grammar TB it) SEmit c) eqn:E; auto.
-    assert (X : existsb (cfg_has TB (grammar TB it) SEmit) (reach TB (grammar TB it) (root_class TB of) m) = true)
-      by (apply existsb_exists; exists c; auto). congruence. }
-  rewrite A1, A2. reflexivity.
+  destruct (F3 c Hin) as [N1 N2]. apply clean_node_ok.
+  rewrite kf_reparent_cfg_eq in K1. rewrite kf_emit_cfg_eq in K2.
+  exact (clean_from_set TB (grammar TB it) _ c Hin K1 K2 N1 N2).
 Qed.
 
 (* -e prints str(edit) only: no formatter is involved at all *)
@@ -425,7 +440,7 @@ Proof.
       * auto.
       * apply cr_refl.
     + vm_compute. reflexivity.
-  - exists (["PLISTFormatter"], "NullNode", "NullNode", true), (Tr "NullNode" []). split.
+  - exists (["PLISTSequenceFormatter"; "PLISTFormatter"], "NullNode", "NullNode", true), (Tr "NullNode" []). split.
     + exists (["PLISTFormatter"], "ListNode", "ListNode", true), null_doc. split; [|split].
       * unfold entry_ok. split; [vm_compute; reflexivity|reflexivity].
       * auto.
@@ -465,7 +480,8 @@ Example C13_partial_applies :
   kf_reparent_cfg TB (grammar TB "xml") (root_class TB "json") MDiff = true /\
   kf_emit_cfg TB (grammar TB "json") (root_class TB "plist") MDiff = true.
 Proof.
-  repeat split; try (vm_compute; reflexivity).
+  do 5 (split; [vm_compute; reflexivity|]).
+  split; [|split; vm_compute; reflexivity].
   exists (["JSONDictFormatter"; "JSONFormatter"], "KeyValuePairNode", "KeyValuePairNode", true),
          (Tr "KeyValuePairNode" [Tr "StringNode" []; Tr "ListNode" [Tr "IntegerNode" []; Tr "NullNode" []]]).
   split; [|reflexivity].
